@@ -154,6 +154,11 @@ def run(ctx):
                         hit = True
                         detail = "%s(%s, |s| %s)" % (qn.split("::")[-1], cov, show(r, 4))
             good = good and hit
+        if not (bool(oks) and good):
+            # the same validation written as a loop: `for s in &shares[1..] { if !s.same_scheme(&shares[0]) { return Err } }`
+            lv = _scheme_validation_loop(P, f, ev)
+            if lv:
+                good, detail = True, lv
         SP.check_same_scheme_semantics(ctx, "E2.same-scheme", P)
         ctx.ob("E4.scheme", fk, bool(oks) and good, "every success exit requires that each share has the scheme of shares[0]: %s" % detail, where=where(f))
         errs = R.err_blocks(f)
@@ -221,3 +226,58 @@ def run(ctx):
 
     run_posctl(ctx, "E7.adapters", "adapters")
     ctx.assume("vsss-rs split_secret / combine_shares / combine_shares_group implement Shamir sharing and reject <2, zero and duplicate identifiers (dependency contract, vsss-rs 4.3.8)")
+
+
+def _scheme_validation_loop(P, f, ev):
+    """A loop over shares[1..] (or all of shares) whose every iteration tests same_scheme(element, shares[0]) and leaves
+    the function through Err when it is false; the success exits come after the loop.  Returns a description or None."""
+    cfg = f.cfg
+    oks = set(R.ok_blocks(f))
+    errs = set(R.err_blocks(f))
+    for src_b, h in cfg.back_edges():
+        body = set(cfg.natural_loop(src_b, h))
+        srcs = [s_ for bb, s_ in R.loop_sources(f) if bb in body]
+        if len(srcs) != 1 or R.covers_all(srcs[0], "shares") not in ("all", "tail1"):
+            continue
+        for b in sorted(body):
+            t = f.blocks[b]["term"]
+            d = ev.switch.get(b)
+            if t["k"] != "switch" or d is None:
+                continue
+            fm = G.formula(d, P)
+            neg = False
+            if fm[0] == "not":
+                fm, neg = fm[1], True
+            if not (fm[0] == "atom" and fm[1] == "term" and fm[2].op == "call" and B.cname(fm[2]).endswith("::same_scheme")):
+                continue
+            xs = [B.peel(z) for z in fm[2].a[1]]
+            has0 = any(z.op == "index" and B._const_int(z.a[1]) == 0 for z in xs)
+            has_elem = any(any(y.op == "call" and B.cname(y) == "Iterator::next" for y in subterms(z)) for z in xs)
+            if not (has0 and has_elem):
+                continue
+            # the edge on which same_scheme is false
+            false_tgt = [tg for v, tg in t["arms"] if v == 0]
+            false_tgt = false_tgt[0] if false_tgt else None
+            true_tgt = t["otherwise"]
+            bad_tgt = true_tgt if neg else false_tgt
+            if bad_tgt is None:
+                continue
+            reach = cfg.reach_from(bad_tgt)
+            if (reach & errs) and not (reach & oks) and not (reach & {h}):
+                # ... and every iteration performs the test
+                def after_loop(o):
+                    # the success exit lies behind the loop's exhaustion edge - on every way that has a non-empty list
+                    if cfg.dominates(h, o):
+                        return True
+                    with G.given(lambda atom, pol: R._literal_len_bound(atom, not pol, "shares") >= 1):
+                        lits = G.path_literals(ev, o, P, checks_only=True)
+                    src0 = strip_sites(srcs[0])
+                    for atom, pol in lits:
+                        if pol and atom[0] == "atom" and atom[1] in ("switch", "switch_not") and atom[2].op == "discr" and ((atom[1] == "switch" and atom[3] == 0) or (atom[1] == "switch_not" and tuple(atom[3]) == (1,))):
+                            if any(y.op == "call" and B.cname(y) == "Iterator::next" for y in subterms(atom[2])) and any(y == src0 for y in subterms(atom[2])):
+                                return True
+                    return False
+
+                if cfg.dominates(b, src_b) and all(after_loop(o) for o in oks):
+                    return "loop over %s: every element is compared with shares[0] by same_scheme, a mismatch leaves through Err" % R.covers_all(srcs[0], "shares")
+    return None
